@@ -93,7 +93,11 @@ def pool_items():
     # calls left configured shows only there)
     vdeep = weighted((4, st.just([])), (1, st.fixed_dictionaries({"kind": st.just("program"), "vdeep": st.fixed_dictionaries({
         "shape": st.just("nest"), "n": st.integers(60, 240), "kinds": st.lists(st.sampled_from(["if", "if", "else", "switch", "forever"]), min_size=1, max_size=3)})}).map(lambda x: [x])))
-    return st.tuples(p_item, s_item, e_item, st.lists(weighted((1, p_item), (2, s_item), (1, e_item)), min_size=0, max_size=3), pair, ws_item, memo, vdeep).map(lambda t: [t[0], t[1], t[2]] + t[3] + t[4] + t[5] + t[6] + t[7])
+    # routine sets on which convert() gives up inside a graph pass (what the pass leaves behind is history for the next call)
+    from vf.checks import c12
+
+    f_item = c12.failing_item().map(lambda it: {"kind": "ssb", "case": it["case"], "failing": True})
+    return st.tuples(p_item, s_item, e_item, st.lists(weighted((1, p_item), (2, s_item), (1, e_item), (1, f_item)), min_size=0, max_size=3), pair, ws_item, memo, vdeep).map(lambda t: [t[0], t[1], t[2]] + t[3] + t[4] + t[5] + t[6] + t[7])
 
 
 @st.composite
@@ -300,7 +304,7 @@ class HistoryRunner:
         from explorerscript.ssb_converting.ssb_compiler import ExplorerScriptSsbCompiler
         from vf import spec_tables as T
 
-        base = f"/tmp/vf-c11-ws/two-{os.getpid()}-{i}"
+        base = f"{results.WS_ROOT}/two-{os.getpid()}-{i}"
         try:
             mains = []
             for k, proj in enumerate(["one", "two", "three"][: 2 + i % 2]):
@@ -500,4 +504,4 @@ def extra(ctx):
     """scratch workspaces of this run (shared with the fresh-interpreter workers) are removed at the end"""
     import shutil
 
-    shutil.rmtree("/tmp/vf-c11-ws", ignore_errors=True)
+    shutil.rmtree(results.WS_ROOT, ignore_errors=True)
